@@ -226,6 +226,34 @@ func genC01(ctx *Ctx) {
 		ctx.Count("two-variable-operator")
 		ctx.Input(exprInput(p.at(t, 0), penv, t), true)
 	}
+	// every operator inside every bracketing context: as an index expression, as the only and as the second argument of a
+	// call, as a parenthesised operand, as the operand of NOT and of a sign - written without redundant parentheses
+	{
+		v := func(n string) *Tree { return &Tree{Kind: "var", Text: n} }
+		var inner []*Tree
+		for op := range binLevel {
+			inner = append(inner, &Tree{Kind: "bin", Op: op, Args: []*Tree{v("a"), v("b")}})
+		}
+		for _, op := range []string{"NOT", "NEG", "ISNULL", "ISNOTNULL"} {
+			inner = append(inner, &Tree{Kind: "un", Op: op, Args: []*Tree{v("a")}})
+		}
+		for _, in := range inner {
+			for _, t := range []*Tree{
+				{Kind: "bin", Op: "ELEM", Args: []*Tree{v("c"), in}},
+				{Kind: "call", Text: exprFuncs[0], Args: []*Tree{in}},
+				{Kind: "call", Text: exprFuncs[0], Args: []*Tree{v("c"), in}},
+				{Kind: "bin", Op: "*", Args: []*Tree{in, v("c")}},
+				{Kind: "bin", Op: "^", Args: []*Tree{v("c"), in}},
+				{Kind: "un", Op: "NOT", Args: []*Tree{in}},
+				{Kind: "un", Op: "NEG", Args: []*Tree{in}},
+				{Kind: "un", Op: "ISNULL", Args: []*Tree{in}},
+			} {
+				p := &printer{rnd: ctx.Rnd, parens: 0}
+				ctx.Count("operator-in-context")
+				ctx.Input(exprInput(p.at(t, 0), penv, t), true)
+			}
+		}
+	}
 	depth := 3
 	if ctx.Thorough {
 		depth = 4
